@@ -23,7 +23,8 @@ const char *const kEvName[] = {"call-flush", "ret-flush", "call-shutdown", "ret-
                                "exp-shutdown-exit", "added"};
 struct Event { int kind, thread, a, b; int64_t vt; };
 struct Cfg { int readers, F, S, destroy, xlat /* bit r: Export of reader r takes 300 ms */, fft /* 0: 60 s, 1: 100 ms */,
-             xfail /* bit r: the exporter of reader r reports failure from Export, ForceFlush and Shutdown */; };
+             xfail /* bit r: the exporter of reader r reports failure from Export, ForceFlush and Shutdown */,
+             xfflat /* bit r: ForceFlush of reader r's exporter takes 300 ms (and succeeds) */; };  // fft 2: a zero timeout
 std::vector<Cfg> g_cfgs;
 
 struct Shared {
@@ -68,7 +69,12 @@ class Exporter final : public sdkm::PushMetricExporter {
     return (g->cfg->xfail & (1 << id_)) ? sdkc::ExportResult::kFailure : sdkc::ExportResult::kSuccess;
   }
   sdkm::AggregationTemporality GetAggregationTemporality(sdkm::InstrumentType) const noexcept override { return sdkm::AggregationTemporality::kCumulative; }
-  bool ForceFlush(microseconds) noexcept override { g->log(XFF_ENTER, id_); g->log(XFF_EXIT, id_); return !(g->cfg->xfail & (1 << id_)); }
+  bool ForceFlush(microseconds) noexcept override {
+    g->log(XFF_ENTER, id_);
+    if (g->cfg->xfflat & (1 << id_)) std::this_thread::sleep_for(milliseconds(300));
+    g->log(XFF_EXIT, id_);
+    return !(g->cfg->xfail & (1 << id_));
+  }
   bool Shutdown(microseconds) noexcept override { g->xsd_calls[id_]++; g->log(XSD_ENTER, id_); g->log(XSD_EXIT, id_); return !(g->cfg->xfail & (1 << id_)); }
 };
 
@@ -82,13 +88,17 @@ void setup(vf::Options &o) {
   o.cap[vf::TIMER] = atoi(o.get("t", th ? "1" : "0").c_str());
   o.cap[vf::WAKE] = atoi(o.get("w", th ? "1" : "0").c_str());  // spurious wake-ups of condition waits (thorough)
   o.table_bits = th ? 25 : 23;
-  o.deadline_s = atof(o.get("budget", th ? "400" : "45").c_str());
+  o.deadline_s = atof(o.get("budget", th ? "400" : "60").c_str());
   g_cfgs.push_back({1, 0, 2, 0, 0, 0});   // two concurrent Shutdown callers
   g_cfgs.push_back({1, 1, 0, 0, 0, 0});   // flush through the provider, then shutdown
   g_cfgs.push_back({1, 0, 0, 1, 0, 0});   // destruction instead of Shutdown
   g_cfgs.push_back({2, 1, 0, 0, 1, 1});   // two readers, a 100 ms budget, the FIRST reader's exporter is slow: the answer must be false
   g_cfgs.push_back({2, 0, 0, 0, 0, 0, 1});   // the FIRST reader's exporter reports failure: the second reader is shut down all the same
   g_cfgs.push_back({2, 1, 0, 0, 0, 0, 1});   // ... and flushed all the same (the provider's answer is then unconstrained)
+  // the budget runs out while an EARLIER reader flushes successfully (its exporter's own ForceFlush is slow but answers true),
+  // or is zero from the start: a true answer still means that every reader exported and every exporter was flushed
+  g_cfgs.push_back({2, 1, 0, 0, 0, 1, 0, 1});
+  g_cfgs.push_back({2, 1, 0, 0, 0, 2, 0, 0});
   if (th) {
     g_cfgs.push_back({1, 1, 1, 0, 0, 0});   // flush racing shutdown
     g_cfgs.push_back({2, 1, 0, 0, 0, 0});   // two readers
@@ -125,7 +135,7 @@ void run(vf::Ctx &c) {
         counter->Add(2u << f);  // recorded immediately before the call: a collection made earlier does not contain it
         sh.log(ADDED, 2 << f);
         sh.log(CALL_FF, f);
-        bool ok = provider->ForceFlush(cfg.fft ? microseconds(100 * 1000) : microseconds(60ll * 1000 * 1000));
+        bool ok = provider->ForceFlush(cfg.fft == 2 ? microseconds(0) : cfg.fft ? microseconds(100 * 1000) : microseconds(60ll * 1000 * 1000));
         sh.log(RET_FF, f, ok);
       });
     for (int s = 0; s < cfg.S; ++s)
